@@ -474,6 +474,14 @@ fn records(section: &str, tier: Tier) -> Vec<String> {
                     "0,a.m4a",
                     "0,4v",
                     "0,mp4",
+                    // names whose extension is not three characters, or that have none
+                    "0,a.jpeg",
+                    "0,noext",
+                    "0,a.b",
+                    "0,.mp4",
+                    "0,a.mp4.png",
+                    "0,vid\u{e9}os",
+                    "0,\u{6620}\u{50cf}v2",
                 ] {
                     out.push(format!("{t},{rest}"));
                 }
@@ -496,6 +504,24 @@ fn records(section: &str, tier: Tier) -> Vec<String> {
     out.push("Unknown: 1".into());
     out.push("NoColonHere".into());
     out.push(": 5".into());
+    // padding by white space that is not ASCII: "trimmed" means all Unicode white space
+    if let Some((k, v)) = first.split_once(':') {
+        let (k, v) = (k.trim(), v.trim());
+        out.push(format!("{k}:\u{3000}{v}\u{a0}"));
+        out.push(format!("\u{a0}{k}\u{2003}:{v}"));
+        out.push(format!("{k}\u{b}:\u{b}{v}\u{85}"));
+    }
+    match section {
+        "General" => {
+            out.push("Mode:\u{a0}1".into());
+            out.push("SampleSet:\u{3000}Soft".into());
+            out.push("Countdown:\u{b}2".into());
+            out.push("PreviewTime:\u{2003}77\u{a0}".into());
+        }
+        "Metadata" => out.push("Title:\u{3000}Renatus\u{2003}".into()),
+        "Colours" => out.push("\u{3000}Combo1\u{a0}: 9,8,7".into()),
+        _ => {}
+    }
     out
 }
 
